@@ -40,7 +40,7 @@ def plan(tier, seed):
     return {
         "units": units, "universes": {n: len(s) for n, s in us},
         "bounds": {"full grid (n<=2)": "problem x reverse_time x every ensure space x avoid lists {[], every single space"
-                   + (", every ordered pair" if tier != "quick" else "") + "} x source lists {None, every subset} x limits {None,1,2}; "
+                   + (", every ordered pair (pairs: no limit, source lists {None, []})" if tier != "quick" else "") + "} x source lists {None, every subset} x limits {None,1,2}; "
                    "reduced STG: every retained set x ensure x avoid x limit; network given as BooleanNetwork and as Petri net",
                    "reduced grid (n=3)": "avoid lists {[], every minimal/maximal trap space}, source lists {None, []}, limits {None,1}"},
         "rule": "every solver call of the grid compared with the reference enumeration over all 3^n subspaces; "
@@ -138,12 +138,12 @@ def check_net(net, mode, tier, res, spec):
                 if problem == "max" and len(ens) == net.n:
                     continue
                 for avoid in avoids:
-                    for osv in (srcs if problem == "max" else [None]):
+                    for osv in ((srcs if len(avoid) < 2 else [None, []]) if problem == "max" else [None]):
                         src = default_src if osv is None else osv
                         exp = expected(net, problem, rev, ens, avoid, src)
                         if len(exp) >= 2:
                             nontriv = True
-                        for lim in (limits if (not avoid or mode == "full") else [None]):
+                        for lim in (limits if ((not avoid or mode == "full") and len(avoid) < 2) else [None]):
                             for form in (("pn", "bn") if (not avoid and lim is None) else ("pn",)):
                                 call = ["trappist", problem, rev, key(ens), [key(a) for a in avoid], osv, lim, form]
                                 res["evals"] += 1
@@ -158,7 +158,7 @@ def check_net(net, mode, tier, res, spec):
         for ens in ens_list:
             for avoid in avoids:
                 exp = expected_reduced(net, ret, ens, avoid)
-                for lim in (limits if (not avoid or mode == "full") else [None]):
+                for lim in (limits if ((not avoid or mode == "full") and len(avoid) < 2) else [None]):
                     call = ["reduced_stg", key(ret), None, key(ens), [key(a) for a in avoid], None, lim, "pn"]
                     res["evals"] += 1
                     got = compute_fixed_point_reduced_STG(pn, ret, ensure_subspace=ens, avoid_subspaces=avoid, solution_limit=lim)
